@@ -7,7 +7,7 @@ import verif as V
 PROP = "C11"
 SPEC = "Bng.Spec.C11"
 MON = ["opened-without-agreement", "stays-opened", "id-mismatch", "ack-options", "nak-options", "ipcp-address",
-       "no-termination"]
+       "no-termination", "timer-armed"]
 COMPS = [
     V.Component(p, harness="ncp", drv=p, monitors=MON, corpus=p, exec_env={"NCP_PROTO": p}, drv_bin="bngdrv-ncp")
     for p in ("lcp", "ipcp", "ipv6cp")
@@ -26,17 +26,22 @@ ASSUME = [
     "Stop() is the explicit event `stale`",
     "magic numbers / interface identifiers drawn from crypto/rand are symbolic (`o` = the automaton's own current value, "
     "`*` = fresh); a peer value equal to ours by chance other than through `o` is not modelled",
-    "IPCP with IPPool == nil (static or no assigned address); LCP Echo-Request payloads of at least 4 bytes",
-    "ParseLCPPacket/ParseLCPOptions are exercised with well-formed packets plus one malformed option encoding (decoder "
-    "robustness is property C09)",
+    "IPCP's IPPool is an external component: what Allocate answers is a parameter of the run (op `pool`, a scripted "
+    "pppoe.IPPoolAllocator in the harness); `assigned` = configured / SetPeerIP / allocated and not yet released",
+    "option bytes: well-formed lists, one option with an impossible length, and a stray trailing byte; the harness "
+    "compares the BYTES of every Configure-Ack with the request's (decoder robustness beyond that is property C09)",
+    "the translator's sweep for writes to the automaton's fields outside the translated methods is syntactic (receiver / "
+    "parameter names, field names unique to the automata, state constants); processConfigureOptions and "
+    "storePeerOptions are hand-modelled and tied by the differential run only",
 ]
 GEN = os.path.join(V.LEAN, "Bng", "Gen")
 
 
 def regenerate(ctx):
-    """translator: delete the old tables, re-extract them from /repo's working tree"""
+    """translator: re-extract the tables from V.REPO's working tree at the start of every run.  extractfsm writes each
+    table to a temporary file and renames it over the old one; a table whose source it rejects is removed."""
     with V.Lock("lean"):
-        for f in glob.glob(os.path.join(GEN, "Fsm*.lean")):
+        for f in glob.glob(os.path.join(GEN, "Fsm*.lean.tmp")):
             os.remove(f)
         with V.Lock("gomod"):
             rc, out = V.sh(["go", "run", "./cmd/extractfsm", "-repo", V.REPO, "-out", GEN], cwd=V.HARNESS, env=V.env_go())
